@@ -355,3 +355,411 @@ def _(mod):
         if isinstance(st, ast.ClassDef) and st.name == "Decryptor":
             st.body.insert(0, parse_stmt("_cipher_cache = {}"))
             return True
+
+
+# ------------------------------------------------------------------ C01
+@variant("c01-drop-seq-increment", "break", ["C01"], DEC, "A5", "client-seq", "client sequence increment deleted in the TLS 1.2 AEAD method")
+def _(mod):
+    f = get_func(mod, "Decryptor.decrypt_tls12_aead")
+    return edit_first(f, is_aug("self.client_seq"), lambda n: None)
+
+
+@variant("c01-wrong-direction-iv", "break", ["C01"], DEC, "B1", "direction-site", "server arm of the TLS 1.3 AEAD method reads the client IV")
+def _(mod):
+    f = get_func(mod, "Decryptor.decrypt_tls13_aead")
+    def ed(n):
+        n.value = parse_expr("self.client_iv")
+        return n
+    return edit_first(f, lambda n: isinstance(n, ast.Assign) and ast.unparse(n) == "iv = self.server_iv", ed)
+
+
+@variant("c01-seq-not-reset", "break", ["C01"], DEC, "A5", "switch", "update_keys keeps the handshake sequence number for the server")
+def _(mod):
+    f = get_func(mod, "Decryptor.update_keys")
+    return edit_first(f, is_assign_to("self.server_seq"), lambda n: None)
+
+
+@variant("c01-dispatch-order", "break", ["C01"], DEC, "T4", "TLS12:ChaCha20Poly1305", "generic stream branch tested before the TLS 1.2 ChaCha20 branch")
+def _(mod):
+    f = get_func(mod, "Decryptor.decrypt")
+    top = f.body[-1] if isinstance(f.body[-1], ast.If) else next(s for s in f.body if isinstance(s, ast.If))
+    chain = []
+    n = top
+    while True:
+        chain.append(n)
+        if len(n.orelse) == 1 and isinstance(n.orelse[0], ast.If):
+            n = n.orelse[0]
+        else:
+            break
+    i = next(k for k, c in enumerate(chain) if "decrypt_tls12_chacha20" in ast.unparse(c.body[0]))
+    a, b = chain[i], chain[i + 1]
+    a.test, b.test = b.test, a.test
+    a.body, b.body = b.body, a.body
+    return True
+
+
+@variant("c01-residue-from-plaintext", "break", ["C01"], DEC, "A5", "residue", "CBC residue taken from the decrypted bytes")
+def _(mod):
+    f = get_func(mod, "Decryptor.decrypt_last_block_iv_cbc")
+    def ed(n):
+        n.value = parse_expr("decrypted[-index:]")
+        return n
+    return edit_first(f, is_assign_to("self.last_block_client"), ed)
+
+
+@variant("c01-rc4-per-record", "break", ["C01"], DEC, "A5", "keystream", "RC4 context rebuilt for every record")
+def _(mod):
+    f = get_func(mod, "Decryptor.decrypt_generic_stream_cipher")
+    def ed(n):
+        n.value = parse_expr("Cipher(self.bulk_alg(self.server_key), mode=None).decryptor()")
+        return n
+    return edit_first(f, lambda n: isinstance(n, ast.Assign) and ast.unparse(n) == "cipher = self.server_cipher", ed)
+
+
+@variant("c01-suite-offset", "break", ["C01"], SES, "T10", "ciphersuite", "cipher suite read one byte early")
+def _(mod):
+    f = get_func(mod, "Session.handle_tls_server_hello")
+    def ed(n):
+        n.value = parse_expr("record.binary[index - 1: index + 1]")
+        return n
+    return edit_first(f, is_assign_to("self.ciphersuite"), ed)
+
+
+@variant("c01-version-swap", "break", ["C01"], SES, "T10", "version-decision", "0x0302 mapped to TLS 1.0")
+def _(mod):
+    f = get_func(mod, "Session.handle_tls_server_hello")
+    def pred(n):
+        return isinstance(n, ast.Assign) and ast.unparse(n) == "self.tls_version = TlsVersion.TLS11"
+    def ed(n):
+        n.value = parse_expr("TlsVersion.TLS10")
+        return n
+    return edit_first(f, pred, ed)
+
+
+@variant("c01-finished-type", "break", ["C01"], SES, "T4t", "finished-switch", "key switch triggered by handshake type 11 (Certificate)")
+def _(mod):
+    f = get_func(mod, "Session.handle_decrypted_tls_13_handshake_record")
+    def pred(n):
+        return isinstance(n, ast.Compare) and ast.unparse(n) == "handshake_type == 20"
+    def ed(n):
+        n.comparators = [ast.Constant(11)]
+        return n
+    return edit_first(f, pred, ed)
+
+
+@variant("c01-no-padding-strip", "break", ["C01"], SES, "PAD", "padding-strip", "rstrip of TLS 1.3 padding removed")
+def _(mod):
+    f = get_func(mod, "Session.handle_tls_13_application_record")
+    return edit_first(f, lambda n: isinstance(n, ast.Assign) and "rstrip" in ast.unparse(n), lambda n: None)
+
+
+@variant("c01-gate-dropped", "break", ["C01", "C03"], SES, "A4", "gate", "application records decrypted without testing can_decrypt")
+def _(mod):
+    f = get_func(mod, "Session.handle_tls_record")
+    def pred(n):
+        return isinstance(n, ast.If) and ast.unparse(n.test) == "self.can_decrypt and self.decryptor is not None"
+    def ed(n):
+        n.test = parse_expr("self.decryptor is not None")
+        return n
+    return edit_first(f, pred, ed)
+
+
+@variant("c01-preserve-seq-rewrite", "preserve", ["C01"], DEC, desc="x += 1 kept; locals renamed in an AEAD method")
+def _(mod):
+    f = get_func(mod, "Decryptor.decrypt_tls13_aead")
+    return rename_local(f, "decrypted", "plain") and rename_local(f, "associated_data", "aad")
+
+
+@variant("c01-preserve-swap-arms", "preserve", ["C01"], DEC, desc="if isserver arms swapped with negated test in the TLS 1.2 ChaCha method")
+def _(mod):
+    f = get_func(mod, "Decryptor.decrypt_tls12_chacha20")
+    ok = False
+    for k in (2, 1):
+        ok = edit_first(f, lambda n: isinstance(n, ast.If) and ast.unparse(n.test) == "isserver", swap_if_else, nth=k) or ok
+    return ok
+
+
+# ------------------------------------------------------------------ C02
+@variant("c02-merge-without-ts", "break", ["C02", "C07", "C08"], QOB, "D8", "merge#1", "equal packet-number bytes merge frames regardless of capture time")
+def _(mod):
+    f = get_func(mod, "QUICOutputbuilder.build")
+    def pred(n):
+        return isinstance(n, ast.If) and "packet_num == pn" in ast.unparse(n.test)
+    def ed(n):
+        n.test = parse_expr("frame.src_packet.packet_num == pn")
+        return n
+    return edit_first(f, pred, ed)
+
+
+@variant("c02-aad-swap", "break", ["C02"], QS, "T9a", "aad:short", "short-header AAD concatenated as first_byte + packet_num + dcid")
+def _(mod):
+    f = get_func(mod, "QuicSession.decrypt_packet")
+    def pred(n):
+        return isinstance(n, ast.Assign) and ast.unparse(n) == "associated_data = quic_packet.first_byte + quic_packet.dcid + quic_packet.packet_num"
+    def ed(n):
+        n.value = parse_expr("quic_packet.first_byte + quic_packet.packet_num + quic_packet.dcid")
+        return n
+    return edit_first(f, pred, ed)
+
+
+@variant("c02-hp-key-role", "break", ["C02"], QD, "T5q", "key-role", "handshake packets of the server unmasked with the client key")
+def _(mod):
+    f = get_func(mod, "extract_quic_packet")
+    def pred(n):
+        return isinstance(n, ast.Constant) and n.value == "server_handshake_hp"
+    def ed(n):
+        n.value = "client_handshake_hp"
+        return n
+    return edit_first(f, pred, ed)
+
+
+@variant("c02-sample-offset", "break", ["C02"], QD, "T9h", "sample", "sample taken at pn_offset + 3 for short headers")
+def _(mod):
+    f = get_func(mod, "extract_quic_packet")
+    def ed(n):
+        n.value = parse_expr("pn_offset + 3")
+        return n
+    return edit_first(f, is_assign_to("sample_offset"), ed, nth=3)
+
+
+@variant("c02-epoch-cross", "break", ["C02"], QS, "T5q", "decryptor-selection", "server packets decrypted with the client's epoch")
+def _(mod):
+    f = get_func(mod, "QuicSession.decrypt_packet")
+    def pred(n):
+        return isinstance(n, ast.Assign) and ast.unparse(n) == "decryptor = self.decryptors['Application'][self.epoch_server]"
+    def ed(n):
+        n.value = parse_expr("self.decryptors['Application'][self.epoch_client]")
+        return n
+    return edit_first(f, pred, ed)
+
+
+@variant("c02-empty-cid-match", "break", ["C02", "C04"], MAIN, "D7b", "nonempty-cid", "short-header scan accepts zero-length connection IDs again")
+def _(mod):
+    f = get_func(mod, "handle_quic_packet")
+    def pred(n):
+        return isinstance(n, ast.If) and ast.unparse(n.test).startswith("cid and cid ==")
+    def ed(n):
+        n.test = n.test.values[1]
+        return n
+    return edit_first(f, pred, ed)
+
+
+@variant("c02-key-update-first-generation", "break", ["C02"], QS, "EPO", "next-generation", "key update derived from generation 0 instead of the last")
+def _(mod):
+    f = get_func(mod, "QuicSession.check_key_epoch")
+    def pred(n):
+        return isinstance(n, ast.Subscript) and ast.unparse(n) == "self.decryptors['Application'][-1]"
+    def ed(n):
+        n.slice = ast.Constant(0)
+        return n
+    return edit_first(f, pred, ed)
+
+
+# ------------------------------------------------------------------ C03
+@variant("c03-narrow-handler", "break", ["C03"], MAIN, "A1", "capture-loop", "per-packet handler narrowed to ValueError")
+def _(mod):
+    f = get_func(mod, "run")
+    def pred(n):
+        return isinstance(n, ast.ExceptHandler)
+    def ed(n):
+        n.type = ast.Name("ValueError", ast.Load())
+        return n
+    return edit_first(f, pred, ed)
+
+
+@variant("c03-packet-outside-try", "break", ["C03"], MAIN, "A1", "capture-loop", "Packet(buf, ts) moved out of the per-packet try")
+def _(mod):
+    f = get_func(mod, "run")
+    loop = next(n for n in ast.walk(f) if isinstance(n, ast.For) and ast.unparse(n.iter) == "pcap_reader")
+    tr = next(s for s in loop.body if isinstance(s, ast.Try))
+    st = tr.body.pop(0)
+    loop.body.insert(0, st)
+    return True
+
+
+@variant("c03-session-loop-unprotected", "break", ["C03", "C06"], MAIN, "A1", "tls-finalisation-loop", "try removed from the session export loop")
+def _(mod):
+    f = get_func(mod, "run")
+    loop = next(n for n in ast.walk(f) if isinstance(n, ast.For) and ast.unparse(n.iter) == "sessions")
+    tr = loop.body[0]
+    loop.body = tr.body
+    return True
+
+
+@variant("c03-record-try-removed", "break", ["C03", "C08"], SES, "A1r", "get_tls_records", "both containment layers removed from get_tls_records")
+def _(mod):
+    f = get_func(mod, "Session.get_tls_records")
+    changed = False
+    for _ in range(4):
+        for n in ast.walk(f):
+            for fld in ("body", "orelse"):
+                lst = getattr(n, fld, None)
+                if isinstance(lst, list):
+                    for i, s in enumerate(lst):
+                        if isinstance(s, ast.Try):
+                            lst[i:i + 1] = s.body
+                            changed = True
+    return changed
+
+
+@variant("c03-stalling-extension-loop", "break", ["C03"], SES, "A2", "handle_tls_server_hello", "extension walk advances by the body length only (0 for empty extensions)")
+def _(mod):
+    f = get_func(mod, "Session.handle_tls_server_hello")
+    def ed(n):
+        n.value = parse_expr("extension_length")
+        return n
+    return edit_first(f, is_aug("extensions_index"), ed)
+
+
+@variant("c03-frame-zero-length", "break", ["C03", "C17"], QF, "A2", "length-lower-bound", "MAX_DATA frame length starts at 0 and omits the varint length")
+def _(mod):
+    f = get_func(mod, "MaxDataFrame.__init__")
+    ok = edit_first(f, is_assign_to("self.length"), lambda n: parse_stmt("self.length = 0"))
+    ok = edit_first(f, is_aug("self.length"), lambda n: None) and ok
+    return ok
+
+
+@variant("c03-preserve-extra-logging", "preserve", ["C03"], MAIN, desc="extra logging in the handler and the loop")
+def _(mod):
+    f = get_func(mod, "run")
+    def pred(n):
+        return isinstance(n, ast.ExceptHandler)
+    def ed(n):
+        n.body.append(parse_stmt("logging.debug('skipped')"))
+        return n
+    return edit_first(f, pred, ed)
+
+
+# ------------------------------------------------------------------ C04
+@variant("c04-drop-port-conjunct", "break", ["C04"], SES, "B3", "orientation", "matches_session ignores the client port in the first orientation")
+def _(mod):
+    f = get_func(mod, "Session.matches_session")
+    def pred(n):
+        return isinstance(n, ast.BoolOp) and isinstance(n.op, ast.And) and len(n.values) == 4
+    def ed(n):
+        n.values = n.values[:3]
+        return n
+    return edit_first(f, pred, ed)
+
+
+@variant("c04-dgram-swapped-role", "break", ["C04"], QS, "B3", "orientation", "matches_session_dgram compares the destination with the server in both orientations")
+def _(mod):
+    f = get_func(mod, "QuicSession.matches_session_dgram")
+    def pred(n):
+        return isinstance(n, ast.Compare) and ast.unparse(n) == "ip_dst == self.client_ip"
+    def ed(n):
+        n.comparators = [parse_expr("self.server_ip")]
+        return n
+    return edit_first(f, pred, ed)
+
+
+# ------------------------------------------------------------------ C06
+@variant("c06-ack-before-increment", "break", ["C06"], OB, "A7", "bookkeeping-order", "acknowledgement built before the sender's counter is advanced")
+def _(mod):
+    f = get_func(mod, "OutputBuilder.build_server_packet")
+    for n in ast.walk(f):
+        if isinstance(n, ast.If) and "self.ipv6" in ast.unparse(n.test):
+            b = n.body
+            i = next(k for k, s in enumerate(b) if isinstance(s, ast.AugAssign))
+            b[i], b[i + 1] = b[i + 1], b[i]
+            return True
+
+
+@variant("c06-split-gap", "break", ["C06"], OB, "T7s", "telescoping", "parts cut with stride part_len + 1")
+def _(mod):
+    f = get_func(mod, "OutputBuilder.build_client_packet")
+    def pred(n):
+        return isinstance(n, ast.Subscript) and ast.unparse(n).startswith("decrypted[i * part_len")
+    def ed(n):
+        n.slice.lower = parse_expr("i * (part_len + 1)")
+        return n
+    return edit_first(f, pred, ed)
+
+
+@variant("c06-chksum-override", "break", ["C06"], OB, "D3", "frame-shape", "TCP checksum forced to 0 in the SYN")
+def _(mod):
+    f = get_func(mod, "OutputBuilder.build_ack_handshake")
+    def pred(n):
+        return isinstance(n, ast.Call) and isinstance(n.func, ast.Name) and n.func.id == "TCP"
+    def ed(n):
+        n.keywords.append(ast.keyword(arg="chksum", value=ast.Constant(0)))
+        return n
+    return edit_first(f, pred, ed)
+
+
+@variant("c06-placeholder-back", "break", ["C06"], QS, "D3", "placeholder", "empty QUIC session returns a placeholder packet again")
+def _(mod):
+    f = get_func(mod, "QuicSession.build_output")
+    def pred(n):
+        return isinstance(n, ast.Return) and isinstance(n.value, ast.List) and not n.value.elts
+    def ed(n):
+        n.value = parse_expr("[(b'\\x00', 0)]")
+        return n
+    return edit_first(f, pred, ed)
+
+
+@variant("c06-syn-ack-number", "break", ["C06"], OB, "A7", "syn_ack", "SYN-ACK acknowledges 0")
+def _(mod):
+    f = get_func(mod, "OutputBuilder.build_ack_handshake")
+    def pred(n):
+        return isinstance(n, ast.Call) and isinstance(n.func, ast.Name) and n.func.id == "TCP" and "flags='SA'" in ast.unparse(n)
+    def ed(n):
+        for k in n.keywords:
+            if k.arg == "ack":
+                k.value = ast.Constant(0)
+        return n
+    return edit_first(f, pred, ed)
+
+
+# ------------------------------------------------------------------ C07
+@variant("c07-handshake-time-last", "break", ["C07"], OB, "D2", "handshake-time", "handshake stamped with the last packet of the first record")
+def _(mod):
+    f = get_func(mod, "OutputBuilder.build")
+    def ed(n):
+        n.value = parse_expr("record[1].metadata[-1].timestamp")
+        return n
+    return edit_first(f, is_assign_to("self.ts_zero"), ed)
+
+
+@variant("c07-quic-ts-rounded", "break", ["C07"], QD, "D2", "packet-time", "short-header packets stamped with int(timestamp)")
+def _(mod):
+    f = get_func(mod, "extract_quic_packet")
+    def pred(n):
+        return isinstance(n, ast.Call) and isinstance(n.func, ast.Name) and n.func.id == "ShortQuicPacket"
+    def ed(n):
+        for k in n.keywords:
+            if k.arg == "ts":
+                k.value = parse_expr("int(in_packet.timestamp)")
+        return n
+    return edit_first(f, pred, ed)
+
+
+@variant("c07-mac-swapped", "break", ["C07", "C06"], OB, "A7", "packet", "server data packet carries the client MAC as source")
+def _(mod):
+    f = get_func(mod, "OutputBuilder.build_server_packet")
+    def pred(n):
+        return isinstance(n, ast.Call) and isinstance(n.func, ast.Name) and n.func.id == "Ether" and "src=self.server_mac_addr" in ast.unparse(n)
+    def ed(n):
+        for k in n.keywords:
+            k.value = parse_expr("self.client_mac_addr" if k.arg == "src" else "self.server_mac_addr")
+        return n
+    return edit_first(f, pred, ed)
+
+
+# ------------------------------------------------------------------ C08
+@variant("c08-lookahead", "break", ["C08"], SES, "CAUS", "no-lookahead", "record loop peeks at the whole packet buffer")
+def _(mod):
+    f = get_func(mod, "Session.get_tls_records")
+    loop = next(n for n in ast.walk(f) if isinstance(n, ast.For) and ast.unparse(n.iter) == "self.packet_buffer")
+    loop.body.insert(0, parse_stmt("is_last = packet is self.packet_buffer[-1]"))
+    return True
+
+
+@variant("c08-insert-front", "break", ["C08", "C01"], SES, "A8", "append-only", "TLS 1.3 data inserted at the front of the channel")
+def _(mod):
+    f = get_func(mod, "Session.handle_tls_13_application_record")
+    def pred(n):
+        return isinstance(n, ast.Expr) and "application_traffic.append" in ast.unparse(n)
+    def ed(n):
+        return parse_stmt("self.application_traffic.insert(0, (plaintext[:-1], record, isserver))")
+    return edit_first(f, pred, ed)
